@@ -4,6 +4,7 @@ import re
 from tv.refpeg import (Assign, Builder, Choice, Fail, Lit, Not, And, Opt, Re, Ref, RefParser, Rep, Rule, Seq, Unord,
                        assigns_in, attr_mult, dump_ref, pr_grammar, refs_in, rule_kinds, BASE_NAMES)
 from tv.ggen import G, Deriver, mutate
+from tv import refpeg as RP
 
 
 class _Target:
@@ -214,3 +215,12 @@ def make_inputs(g, r, cfg, n, mutate_every=3):
             s = mutate(s, r)
         out.append(s)
     return out
+
+
+def pr_variant(g, variant):
+    """grammar text with string literals spelled plainly (0) or with escape sequences (1-3, see refpeg.q)"""
+    RP.LIT_VARIANT = variant
+    try:
+        return RP.pr_grammar(g)
+    finally:
+        RP.LIT_VARIANT = 0
